@@ -102,7 +102,8 @@ def opMkFile (w : World) (k : Nat) (name : Bytes) (ver : Nat) (validVersion : Bo
       let (rootHdr, issued, nid, extra) :=
         if m.rootIssued then (st.1, true, w.nextId, "")
         else ({ st.1 with id := w.nextId, parent := .model k }, true, w.nextId + 1, s!" e{w.nextId}")
-      let kids := st.2.1
+      -- (a root without protocol id has no content; `setParents` only keeps the function total with respect to the invariant)
+      let kids := if m.rootIssued then st.2.1 else st.2.1.setParents (.elem w.nextId)
       let m' := { m with files := m.files ++ [f], rootHdr := rootHdr, rootKids := kids, rootIssued := issued }
       ({ w with models := w.models.set k m', nextFile := w.nextFile + 1, nextId := nid, fileOwner := w.fileOwner ++ [(f.id, k)] },
         s!"ok f{f.id}{extra}")
